@@ -16,8 +16,9 @@ import vp
 CONC = {"i1a": {"$i64": "1"}, "i1b": {"$u64": "1"}, "i2": 2, "sa": "a", "sb": "b", "nn": None,
         "m1": {"k": 1, "id": "m1"}, "m2": {"k": {"$u64": "1"}, "id": "m2"}, "m3": {"k": 2, "id": "m3"}, "ms": {"k": "a", "id": "ms"},
         "mx": {"id": "mx"}, "mn": {"k": None, "id": "mn"}, "ar": [1], "ax": [1, "a"], "a13": [1, 3], "a2": [2],
-        "m0": {}, "mxz": {"id": "mx", "zz": 1}, "aq": [{"q": 1}], "aq2": [{"q": 1}, 2], "in1": {"$i64": "-1"}, "mk": {"k": {"$i64": "-1"}, "id": "mk"}, "fm15": {"$f64": "-1.5"}}          # m0 = {} and mxz = mx plus a key sorting last: "prefix" maps of mx
-SHOWN = {"i1a": "1", "i1b": "1", "i2": "2", "sa": "a", "sb": "b", "nn": "N", "ar": "A1", "ax": "A1a", "a13": "A13", "a2": "A2", "m0": "M0", "mxz": "mxz", "aq": "A{\"q\": 1}", "aq2": "A{\"q\": 1}2", "in1": "-1", "fm15": "-1.5"}
+        "m0": {}, "mxz": {"id": "mx", "zz": 1}, "aq": [{"q": 1}], "aq2": [{"q": 1}, 2], "in1": {"$i64": "-1"}, "mk": {"k": {"$i64": "-1"}, "id": "mk"}, "fm15": {"$f64": "-1.5"},
+        "z0": {"$u64": "0"}, "zU": {"$u128": "0"}, "bt": True, "bf": False}          # m0 = {} and mxz = mx plus a key sorting last: "prefix" maps of mx
+SHOWN = {"i1a": "1", "i1b": "1", "i2": "2", "sa": "a", "sb": "b", "nn": "N", "ar": "A1", "ax": "A1a", "a13": "A13", "a2": "A2", "m0": "M0", "mxz": "mxz", "aq": "A{\"q\": 1}", "aq2": "A{\"q\": 1}2", "in1": "-1", "fm15": "-1.5", "z0": "0", "zU": "0", "bt": "true", "bf": "false"}
 ITEM = ("{% if e is map %}{% if e | length == 0 %}M0{% elif e.zz is defined %}mxz{% else %}{{ e.id }}{% endif %}{% elif e is array %}A{{ e | join }}"
         "{% elif e is none %}N{% else %}{{ e }}{% endif %},")
 
